@@ -7,7 +7,9 @@
 #ifndef DUP
 #define DUP 0
 #endif
+#ifndef NKEY
 #define NKEY 4
+#endif
 #define MAXN 6
 typedef tlx::SplayTree<uint8_t, std::less<uint8_t>, DUP != 0> Tree;
 struct Collect { uint8_t* out; unsigned* n; void operator()(const uint8_t& k) const { if (*n < MAXN + 1) out[*n] = k; ++*n; } };
